@@ -42,6 +42,7 @@ type ExprCtx struct {
 	fc          *FuncContract // for lets
 	letDepth    int
 	lenient     bool
+	stepLoop    *loopInfo
 }
 
 type contractPanic struct{ msg string }
@@ -549,10 +550,15 @@ func (c *ExprCtx) indexExpr(base TV, ix CExpr) TV {
 		ref := e.scalar(base.V)
 		ls := leavesOf(u.Elem())
 		ts := make([]T, len(ls))
+		dk := "md:" + typeKey(base.Typ)
+		dom := e.get(c.st, dk, arrSort(SInt, arrSort(SInt, SBool)))
+		present := Select(Select(dom, ref), kt)
+		zs := e.flatten(e.zero(u.Elem()), u.Elem())
 		for i, lf := range ls {
 			vk := "mv:" + typeKey(base.Typ) + lf.path
 			arr := e.get(c.st, vk, arrSort(SInt, arrSort(SInt, lf.sort)))
-			ts[i] = Select(Select(arr, ref), kt)
+			// Go semantics: a missing key yields the zero value
+			ts[i] = Ite(present, Select(Select(arr, ref), kt), zs[i])
 		}
 		v, _ := e.unflatten(u.Elem(), ts)
 		return TV{V: v, Typ: u.Elem()}
@@ -587,6 +593,8 @@ func (c *ExprCtx) binary(x CBin) TV {
 		switch {
 		case aT && bT && at.Sort == bt.Sort:
 			eq = Eq(at, bt)
+		case a.Typ != nil && b.Typ != nil && ifaceVsConcrete(a, b) != nil:
+			eq = ifaceVsConcrete(a, b)(e)
 		case a.Typ != nil && b.Typ != nil:
 			ta := a.Typ
 			if bb, ok := under(ta).(*types.Basic); ok && bb.Kind() == types.UntypedNil {
@@ -667,6 +675,17 @@ func (c *ExprCtx) call(x CCall) TV {
 		switch id.Name {
 		case "old":
 			return c.inOld().expr(x.Args[0])
+		case "prev":
+			// prev(x) in a loop step clause: the value at the start of the iteration
+			if c.stepLoop == nil {
+				c.fail("prev() is only meaningful in a loop step clause")
+			}
+			n := *c
+			n.phiOverride = nil
+			n.block = c.stepLoop.head
+			n.idx = len(c.stepLoop.phis)
+			n.st = c.stepLoop.headState
+			return n.expr(x.Args[0])
 		case "implies":
 			return TV{V: Imp(c.boolExpr(x.Args[0]), c.boolExpr(x.Args[1])), Typ: types.Typ[types.Bool]}
 		case "iff":
@@ -773,6 +792,25 @@ func (c *ExprCtx) call(x CCall) TV {
 			return TV{V: App(SInt, "mod", c.intExpr(x.Args[0]), IntBig(pow2(uint(k.Int64()))))}
 		case "b2i":
 			return TV{V: Ite(c.boolExpr(x.Args[0]), IntLit(1), IntLit(0))}
+		case "addr":
+			// addr(lvalue): the address of a field / element / dereferenced object
+			a, t, ok := c.lvalue(x.Args[0])
+			if !ok {
+				c.fail("addr(%s): not an addressable expression", cexprString(x.Args[0]))
+			}
+			return TV{V: &PtrV{A: a, Elem: t}, Typ: types.NewPointer(t)}
+		case "sliceof":
+			// sliceof(lvalue of array type): the slice x[:] over an array stored in the heap
+			a, t, ok := c.lvalue(x.Args[0])
+			if !ok {
+				c.fail("sliceof(%s): not an addressable expression", cexprString(x.Args[0]))
+			}
+			at, isArr := under(t).(*types.Array)
+			if !isArr {
+				c.fail("sliceof: array expected")
+			}
+			n := IntLit(at.Len())
+			return TV{V: &SliceV{Base: e.arrView(a), Off: IntLit(0), Len: n, Cap: n, Elem: at.Elem()}, Typ: types.NewSlice(at.Elem())}
 		case "f64":
 			return TV{V: e.floatOp("i2f", SF, c.intExpr(x.Args[0]))}
 		case "fquo":
@@ -1338,5 +1376,25 @@ func (e *Enc) assumeLemma(lm *Lemma) {
 		e.note("axiom (assumed): " + lm.Name + ": " + lm.Body.Text)
 	} else {
 		e.note("lemma used as a background fact (proved separately as " + lastPathElem(lm.Pkg) + ".lemma/" + lm.Name + ")")
+	}
+}
+
+// ifaceVsConcrete: comparison of an interface value with a value of a concrete pointer type
+// (x == p holds iff x's dynamic type is p's type and the boxed pointer equals p).
+func ifaceVsConcrete(a, b TV) func(e *Enc) T {
+	ia, aIs := a.V.(*IfaceV)
+	ib, bIs := b.V.(*IfaceV)
+	if aIs == bIs {
+		return nil
+	}
+	if bIs {
+		ia, a, b = ib, b, a
+	}
+	_ = a
+	if _, isPtr := under(b.Typ).(*types.Pointer); !isPtr {
+		return nil
+	}
+	return func(e *Enc) T {
+		return And(Eq(ia.Tag, e.typeTag(b.Typ)), Eq(ia.Data, e.scalar(b.V)))
 	}
 }
